@@ -175,7 +175,9 @@ CLAIMS["C08"] = dict(
           "hardening energies vanish and flow stresses are positive at zero plastic strain; (D2) configuration-frame typing: the "
           "finite-deformation energies depend on F only through well-typed invariants (terms in tr F cancel exactly), strain "
           "measures have reference/intermediate frames, internal-state updates keep the frames of the state, and the closed-form "
-          "3x3 helpers (inv, detpIm1, det, deviator, sym) satisfy their polynomial identities for a generic matrix. Objectivity "
+          "3x3 helpers (inv, detpIm1, det, deviator, sym) satisfy their polynomial identities for a generic matrix; the hyperelastic "
+          "energies are dimensionally homogeneous (symbolic rescaling of the units of the named material constants multiplies the "
+          "energy by the stress unit exactly). Objectivity "
           "and isotropy as floating-point statements on evolved states are NOT decided."),
     design_ref="DESIGN.md section 4, C08",
     technique="static analysis: sparse conditional constant propagation over dual rational constants (abstract interpretation of the material factories), non-commutative polynomial frame typing, polynomial identity checking")
@@ -186,12 +188,15 @@ CLAIMS["C09"] = dict(
           "comparison): the flow direction and the tensor segment of every state increment are identically traceless, increments "
           "have NUM_STATE_VARS entries, the state layout constants agree with initial states and updates, the finite update is "
           "exp_symm(increment segment) @ Fp_old with consistent frames (so det Fp is preserved); the root-finder bracket starts at "
-          "the old equivalent plastic strain and has width (trial Mises - flow stress)/(3 mu), the increment is root - old and the "
-          "elastic branch adds zero; the residual is d(incremental_potential)/d(eqps) and the root lambda varies exactly that "
+          "the old equivalent plastic strain and the symbolic plastic residual is strictly negative at its lower and strictly "
+          "positive at its upper end while yielding, for linear hardening with modulus > 0 and = 0 and old plastic strain > 0 and = 0 "
+          "(so the root finder's sign test cannot be decided by round-off), the increment is root - old and the elastic branch adds "
+          "zero; energy, state update and hardening potentials (all hardening laws, with and without rate sensitivity, all "
+          "kinematics) are dimensionally homogeneous under rescaling of the stress and time units; the residual is d(incremental_potential)/d(eqps) and the root lambda varies exactly that "
           "slot; each kinematics option pairs the energy's strain measure with the state update that uses it. Yield consistency "
           "to tolerance, minimality, idempotence and the size of the degeneracy tolerance are NOT decided."),
     design_ref="DESIGN.md section 4, C09",
-    technique="static analysis: abstract interpretation on generic symbolic tensors with path splitting, role analysis of root-finder arguments, slot agreement, option dispatch pairing, frame typing")
+    technique="static analysis: abstract interpretation on generic symbolic tensors with path splitting, sign analysis of the symbolic residual at the bracket ends, dimensional analysis by symbolic unit scaling, slot agreement, option dispatch pairing, frame typing")
 
 CLAIMS["C11"] = dict(
     category="other",
@@ -202,10 +207,12 @@ CLAIMS["C11"] = dict(
           "G*tau*(dt/(tau+dt))^2/dt*|dev E|^2, a sum of positive multiples of squares; (D3) the update factor is dt/(tau+dt) "
           "(0 at dt=0, limit 1), the energy is W_eq + sum_b G_b[(1-f_b)^2 + tau_b f_b^2/dt]|dev E_b|^2, equals the instantaneous "
           "value at dt=0 and tends to the equilibrium value as dt -> infinity (limits of rational functions); (D4) property index "
-          "constants, _make_properties order and the per-branch index map agree. Monotone relaxation over multi-step histories "
+          "constants, _make_properties order and the per-branch index map agree; energy, state update and dissipation are "
+          "dimensionally homogeneous under rescaling of the stress and time units (a missing or doubled dt / relaxation time is "
+          "reported). Monotone relaxation over multi-step histories "
           "is NOT decided."),
     design_ref="DESIGN.md section 4, C11",
-    technique="static analysis: abstract interpretation on generic symbolic tensors, exact rational identities and limits, slot-table agreement, frame typing")
+    technique="static analysis: abstract interpretation on generic symbolic tensors, exact rational identities and limits, dimensional analysis by symbolic unit scaling, slot-table agreement, frame typing")
 
 CLAIMS["C17"] = dict(
     category="other",
@@ -238,13 +245,20 @@ CLAIMS["C12"] = dict(
           "detpIm1(A) = det(A+I)-1, inv(A)A = A inv(A) = I, deviator, sym/skw); (O2) symmetric_matrix_function is "
           "V diag(f(lam)) V^T with eigenvectors as columns, the eigen solver applies argsort(evals) to the eigenvalues and to the "
           "column axis, assembles values and vectors in the same order, and eigen_sym33_unit scales by the max norm, rescales the "
-          "eigenvalues by the same factor and normalises each column by its own length; (O3) every custom_jvp function has a rule "
+          "eigenvalues by the same factor and normalises each column by its own length; the scalar part of the eigen solver is lowered "
+          "to exact rational normal forms: both degeneracy guards compare -J2 of the deviator with a negative semi-definite quadratic "
+          "form of the input, the cubic argument is det(D)/2 (3/J2)^(3/2), the largest root is 2 sqrt(J2/3) cos(.) sign(.), the two "
+          "deflated roots have the trace and determinant of the reduced 2x2 block for every value their sign factor can take, the mean "
+          "is added back exactly once and the spherical branch returns (m,m,m) with an orthonormal triad; the literal coefficients of "
+          "the cos(acos(x)/3) approximant satisfy 4c^3-3c=x to 1e-14 on a 1001-point grid (exact rational folding); (O3) every custom_jvp function has a rule "
           "whose primal output calls the decorated function and whose tangent helper gets the primal's scalar function, the divided "
-          "difference falls back to the derivative at equal eigenvalues, the sqrt relative difference is proved algebraically and "
-          "the transcendental ones are screened for counterexamples (refutation only). Accuracy over magnitudes, near degeneracy, "
+          "difference falls back to the derivative exactly at equal eigenvalues, the tangent helper interpreted on generic symbolic data "
+          "(f = x^3) equals V (h o V^T sym(Cdot) V) V^T for distinct, double and triple eigenvalues, the sqrt relative difference and "
+          "the coefficients of the log Taylor series are proved algebraically and the remaining transcendental formulas are screened "
+          "for counterexamples (refutation only). Accuracy over magnitudes, near degeneracy, "
           "and the LinAlg iterations are numerical and NOT decided."),
     design_ref="DESIGN.md section 4, C12",
-    technique="static analysis: polynomial identity checking by abstract interpretation on a generic matrix, role/permutation rules, custom_jvp protocol checking")
+    technique="static analysis: exact rational normal forms of the straight-line eigen solver (polynomial identities, definiteness of quadratic forms, finite sign-range case split), abstract interpretation on generic symbolic data, constant folding of literal tables, role/permutation rules, custom_jvp protocol checking")
 
 CLAIMS["C10"] = dict(
     category="other",
@@ -254,10 +268,11 @@ CLAIMS["C10"] = dict(
           "y/g(1); stress outputs are value_and_grad(L, k) with k the position of the displacement gradient in all three mechanics "
           "factories; the flow stress is grad of the hardening energy w.r.t. the plastic strain, the plastic residual is the "
           "derivative of the incremental potential w.r.t. eqps, the element stiffness is the Hessian w.r.t. the element nodal field, "
-          "and J2's hardening tuple slots match HardeningModel. Agreement of delivered derivatives with finite differences is "
+          "and J2's hardening tuple slots match HardeningModel; no function in the call cone of any material energy density or "
+          "mechanics factory (226 scopes) calls stop_gradient or carries a hand-written derivative rule other than the verified ones. Agreement of delivered derivatives with finite differences is "
           "numerical and NOT decided."),
     design_ref="DESIGN.md section 4, C10",
-    technique="static analysis: custom_jvp/custom_root protocol checking, derivative-slot agreement, polynomial identity checking")
+    technique="static analysis: custom_jvp/custom_root protocol checking, derivative-slot agreement, who-may-call rule over the energy-density call cone, polynomial identity checking")
 
 CLAIMS["C03"] = dict(
     category="other",
